@@ -187,9 +187,10 @@ type runtimeEnv struct {
 	valueNodes                   map[int]*leafImpl // leaves implemented by value-type nodes
 	seenCtx                      []context.Context
 	// panic family: the callback named here ("p", "e<k>", "f", "o") panics with panicVal right after it was recorded
-	panicAt  string
-	panicVal any
-	late     map[int][]lateConn // connections made during the run by the post callback of their source node
+	panicAt     string
+	panicVal    any
+	late        map[int][]lateConn // connections made during the run by the post callback of their source node
+	nilNodeImpl *leafImpl          // the leaf implemented by the nil-pointer node, if any
 }
 
 func (e *runtimeEnv) maybePanic(at string) {
@@ -609,6 +610,19 @@ func (n valueNode) Post(ctx context.Context, s *flyt.SharedStore, p, x any) (fly
 	return valueImpls[n.ID].post(s, p, x)
 }
 
+// nilNode: a Node implementation used through a NIL pointer: the type has no fields, its methods never touch the receiver, so
+// `(*nilNode)(nil)` is a perfectly good node (a non-nil interface value holding a nil pointer). Like valueNode it carries no
+// state: the callbacks are looked up in the scenario that owns `nilImpl` (at most one such node per scenario).
+type nilNode struct{}
+
+var nilImpl *leafImpl
+
+func (n *nilNode) Prep(ctx context.Context, s *flyt.SharedStore) (any, error) { return nilImpl.prep(s) }
+func (n *nilNode) Exec(ctx context.Context, p any) (any, error)               { return nilImpl.exec(p) }
+func (n *nilNode) Post(ctx context.Context, s *flyt.SharedStore, p, x any) (flyt.Action, error) {
+	return nilImpl.post(s, p, x)
+}
+
 func (e *runtimeEnv) buildLeaf(id int, cfg *LeafCfg) flyt.Node {
 	rt := &nodeRT{env: e, id: id, visit: -1}
 	e.rts[id] = rt
@@ -623,6 +637,9 @@ func (e *runtimeEnv) buildLeaf(id int, cfg *LeafCfg) flyt.Node {
 	case cfg.Fb == "absent" && !cfg.Retryable && cfg.Impl == "value" && cfg.PrepS == "direct" && cfg.ExecS == "direct" && cfg.PostS == "direct":
 		e.valueNodes[id] = l
 		return valueNode{ID: id}
+	case cfg.Fb == "absent" && !cfg.Retryable && cfg.Impl == "nilptr" && cfg.PrepS == "direct" && cfg.ExecS == "direct" && cfg.PostS == "direct":
+		e.nilNodeImpl = l
+		return (*nilNode)(nil)
 	case cfg.Fb == "absent" && !cfg.Retryable:
 		return &plainNode{l}
 	case cfg.Fb == "absent" && cfg.Retryable:
@@ -1191,7 +1208,7 @@ func lateify(sc *FlowScenario, h uint64) {
 	}
 	leafPost := map[int]bool{}
 	for _, n := range sc.Nodes {
-		if n.Leaf != nil && n.Leaf.PostS != "absent" && n.Leaf.Impl != "value" {
+		if n.Leaf != nil && n.Leaf.PostS != "absent" && n.Leaf.Impl != "value" && n.Leaf.Impl != "nilptr" {
 			leafPost[n.ID] = true
 		}
 	}
@@ -1363,7 +1380,7 @@ func normaliseZero(sc *FlowScenario) {
 func execFlowScenario(sc *FlowScenario) FlowObs {
 	normaliseZero(sc)
 	for _, n := range sc.Nodes {
-		if n.Leaf != nil && n.Leaf.Impl == "value" {
+		if n.Leaf != nil && (n.Leaf.Impl == "value" || n.Leaf.Impl == "nilptr") {
 			valueScenarioMu.Lock()
 			defer valueScenarioMu.Unlock()
 			break
@@ -1372,6 +1389,9 @@ func execFlowScenario(sc *FlowScenario) FlowObs {
 	e := newRuntime(sc)
 	if len(e.valueNodes) > 0 {
 		valueImpls = e.valueNodes
+	}
+	if e.nilNodeImpl != nil {
+		nilImpl = e.nilNodeImpl
 	}
 	obs := FlowObs{Runs: []RunObs{}}
 	if sc.RBudget != nil {
